@@ -273,14 +273,17 @@ def pred(req, snap, exc):
             return [("raised", f"{type(exc).__name__}: {exc}")]
         if f == "lch" and not nodes:
             return fails                          # the null network has no component: raising or returning it are both fine
-        if f in ("relabel", "cleanup") and req["in_place"] and req["H"].get("frozen"):
-            return fails if o == "err:lib" else [("wrong-error", o)]
         if f == "cleanup":
             fl = {k: req[k] for k in FLAGS}
             exp = expected_cleanup(fl, nodes, mem, eo)
-            if exp is None:
+            if exp is None and o == "err:type":
                 # a class of repeated edges whose IDs Python cannot sort (merge_duplicate_edges takes the smallest)
-                return fails if o == "err:type" else [("wrong-error", o)]
+                return fails
+        if f in ("relabel", "cleanup") and req["in_place"] and req["H"].get("frozen"):
+            return fails if o == "err:lib" else [("wrong-error", o)]
+        if f == "cleanup":
+            if exp is None:
+                return [("wrong-error", o)]
             if exp[2] and o == "err:value":
                 return [("raises-on-null-network", f"cleanup({fl}) raised {type(exc).__name__}: {exc} — nothing is left "
                          "when the connected step runs")]
